@@ -9,7 +9,9 @@ client_secret), driven by raw WSGI requests.  Only the two network seams are reb
 Parts (all exhaustive within the stated bounds):
   R  every string ``lead + t1..tk`` (k <= 4) of the return-to grammar is sent as ``_vgi_return_to`` through
      flow A (unauthenticated browser GET -> 302 to the authorization endpoint + session cookie -> callback with the
-     matching state -> 302) and flow B (already authenticated: ``_vgi_auth`` cookie -> immediate 302).
+     matching state -> 302) and flow B (already authenticated: ``_vgi_auth`` cookie -> immediate 302); plus long
+     loopback return-to URLs of 16 lengths (64 .. 4096, around 256 / 1024 / 2048) x 15 alignments whose userinfo repeats
+     ``@evil.example:1``, so that a value validated whole and shortened anywhere afterwards resolves off-origin.
   P  every string ``lead + t1..tk`` (k <= 4) of the path grammar is used as the request path (PATH_INFO, i.e. after
      the server's percent-decoding) of flow A; the callback's same-origin redirect is judged.
   K  callback completion: for valid sessions every single-byte mutation (quick: xor 1; thorough: each of 8 bit
@@ -54,7 +56,8 @@ ENGINE = "E1-SEQ"
 SHARDS = {"quick": 16, "thorough": 16}
 RULE = (
     "R: return-to strings lead+<=4 tokens (quick 6 leads x 12 tokens, prefix ''; thorough 16 leads x 17 tokens on "
-    "prefix '' plus the quick grammar on prefix '/api'), each through flow A (3 requests) and flow B; "
+    "prefix '' plus the quick grammar on prefix '/api'), each through flow A (3 requests) and flow B; plus 240 long "
+    "return-to URLs (16 lengths 64..4096 x 15 alignments of a repeating '@evil.example:1' userinfo) through both flows; "
     "P: request paths lead+<=4 tokens (quick 12, thorough 16 tokens; leads '/', prefix, prefix+'/') through flow A on "
     "prefixes '' and '/api'; K: all single-byte mutations/truncations of the decoded session cookie, ages, state "
     "variants for 4 base sessions; L: logout and error answers. Every 3xx Location judged by the WHATWG reference. "
@@ -118,6 +121,27 @@ def p_items(ctx: Ctx) -> list[tuple[str, str, list[str], str | None]]:
             out.append((prefix, lead, toks, None))
             for t in toks:
                 out.append((prefix, lead, toks, t))
+    return out
+
+
+LONG_LENGTHS = (64, 128, 255, 256, 257, 512, 1000, 1024, 1500, 2000, 2040, 2047, 2048, 2049, 3000, 4096)
+LONG_UNIT = "@evil.example:1"
+
+
+def long_return_tos() -> list[str]:
+    """Loopback return-to URLs of every length in LONG_LENGTHS whose userinfo repeats ``@evil.example:1``.
+
+    The complete string names ``localhost`` (userinfo ends at the LAST ``@``), but almost every proper prefix of it names
+    a foreign host, so a redirect built from a value that was validated whole and then shortened / re-assembled anywhere
+    (cookie packing, header limits) resolves off-origin.  All ``len(unit)`` alignments are produced, so whatever the cut
+    position, some string has a complete foreign host right before it.
+    """
+    out: list[str] = []
+    head, tail = "http://", "@localhost:4321/cb"
+    for n in LONG_LENGTHS:
+        for r in range(len(LONG_UNIT)):
+            body = ("u" * (r + 1) + LONG_UNIT * (n // len(LONG_UNIT) + 2))[: max(1, n - len(head) - len(tail))]
+            out.append(head + body + tail)
     return out
 
 
@@ -567,6 +591,13 @@ def run(ctx: Ctx) -> None:
             n += 1
             run_return_to(ctx, j, prefix, s, sample=(n % 50021 == 7))
             ctx.extra["return_to_strings"] += 1
+    for s in long_return_tos() if "R" in parts else []:
+        if not ctx.mine():
+            continue
+        n += 1
+        run_return_to(ctx, j, "", s, sample=(n % 97 == 3))
+        ctx.extra["return_to_strings"] += 1
+        ctx.extra["long_return_to_strings"] = ctx.extra.get("long_return_to_strings", 0) + 1
     for prefix, lead, toks, first in p_items(ctx) if "P" in parts else []:
         if not ctx.mine():
             continue
